@@ -870,11 +870,21 @@ class t2grid(object):
             if num_missing == 1:
                 dirn = missing_dirns[0]
                 present_dirns = [1,2,3]; present_dirns.remove(dirn)
-                d = ob.volume
-                for pd in present_dirns:
-                    con = [con for con in ob.connection_name if
-                           grid.connection[con].direction == pd][0]
-                    i = con_name_index(con, ob.name)
+                def direction_connections(blk):
+                    """First connection of block in each of the present directions"""
+                    return [([con for con in blk.connection_name if
+                              grid.connection[con].direction == pd] + [None])[0]
+                            for pd in present_dirns]
+                # use origin block if it has connections in both present directions
+                # (it may not, e.g. if it has no block or atmosphere above it)- otherwise
+                # the first other block that has:
+                for blk in [ob] + [b for b in grid.blocklist if 0. < b.volume < max_volume]:
+                    cons = direction_connections(blk)
+                    if None not in cons: break
+                else: raise Exception("Can't calculate missing block spacing for 2-D mesh.")
+                d = blk.volume
+                for con in cons:
+                    i = con_name_index(con, blk.name)
                     d /= (2. * grid.connection[con].distance[i])
                 spacings[dirn].append(d)
             elif num_missing == 2:
@@ -920,7 +930,11 @@ class t2grid(object):
         def match_position(geo, grid, ob):
             """Rotate and translate geometry as needed."""
             blks, sp = block_direction_track(grid, ob, 1)
-            angle =  0.5 * np.pi - vector_heading(blks[-1].centre[0:2] - ob.centre[:2])
+            if len(blks) > 1:
+                angle =  0.5 * np.pi - vector_heading(blks[-1].centre[0:2] - ob.centre[:2])
+            else: # only one block in direction 1: use direction 2, at right angles to it
+                blks, sp = block_direction_track(grid, ob, 2)
+                angle = -vector_heading(blks[-1].centre[0:2] - ob.centre[:2])
             from math import degrees
             angle = degrees(angle)
             geo.rotate(-angle, np.zeros(2))
